@@ -87,6 +87,10 @@ SOAK = [
     ("map_insert_distinct", "map", [],
      ["for i in 0..N\n  shared.insert 'a{i}', i\n", "for i in 0..N\n  shared.insert 'b{i}', i\n", "for i in 0..N\n  shared.insert 'c{i}', i\n"],
      lambda fin, th, N: None if len(fin) == 3 * N else "lost update: %d entries after 3 x %d inserts of distinct keys" % (len(fin), N)),
+    ("map_remove_disjoint", "map", list(range(2400)),
+     ["bad = 0\nfor i in 0..600\n  k = i * 4 + %d\n  if shared.remove('k{k}') != k\n    bad += 1\nprint bad\n" % j for j in range(4)],
+     lambda fin, th, N: None if all((t.get("stdout") or "0").strip() in ("", "0") for t in th) and len(fin) == 0
+     else "removals of distinct keys interfered: wrong results per thread %s, %d entries left" % ([(t.get("stdout") or "").strip() for t in th], len(fin))),
     ("map_insert_remove", "map", [1, 2, 3],
      ["for i in 0..N\n  shared.insert 'x', i\n  shared.remove 'x'\n", "for i in 0..N\n  shared.insert 'x', -i\n", "for i in 0..N\n  y = shared.get 'x'\n  z = size shared\n  k = shared.keys().to_tuple()\n"],
      lambda fin, th, N: None),
@@ -145,6 +149,10 @@ def run(tier, seed):
                        coverage=False, deadlock=True, tag="shared_two")
     if r.invariant_violated != "NoPanic":
         raise common.ToolError("self-test: the two-step insert/remove model was not rejected (%s)" % r.invariant_violated)
+    r = common.run_tlc("Shared", "Shared.cfg", workers=8, env={"TWOSTEP": "2", "THREADS": 2, "OPS": 2, "FAMILY": "single", "FULLOPS": "0"}, timeout=3000,
+                       coverage=False, deadlock=True, tag="shared_find")
+    if r.invariant_violated != "Linearizable":
+        raise common.ToolError("self-test: the two-step remove-by-value model was not rejected by Linearizable (%s)" % r.invariant_violated)
     r = common.run_tlc("Shared", "Shared.cfg", workers=8, env={"TWOSTEP": "0", "THREADS": 2, "OPS": 1, "FAMILY": "pair", "FULLOPS": "0"}, timeout=3000,
                        coverage=False, deadlock=True, tag="shared_pair")
     pair_deadlock = "Deadlock reached" in r.stdout
@@ -207,7 +215,7 @@ def run(tier, seed):
     rep.coverage = {
         "states": states, "transitions": states, "traces_validated_against_impl": 2 * len(jobs) + len(recs) + len(SOAK),
         "evaluations": 2 * len(jobs) + len(rounds) + len(SOAK), "distinct_nontrivial": len(jobs) + len(recs),
-        "programs_run_on_both_builds": len(jobs), "model_checking": mc, "two_step_model_rejected_by": "NoPanic",
+        "programs_run_on_both_builds": len(jobs), "model_checking": mc, "two_step_model_rejected_by": "NoPanic", "two_step_remove_by_value_rejected_by": "Linearizable",
         "two_container_operations_can_deadlock_in_the_model": pair_deadlock,
         "rounds_validated_by_tlc": len(recs), "rounds_rejected": len(common.tlc_values(tl, "REJECTED")), "soak_iterations_per_thread": N,
         "soak_rounds": [s[0] for s in SOAK],
